@@ -51,6 +51,10 @@ func c01Probes() map[string]interface{} {
 		"DoublePtrToPtrReceiverMarshaler": &ptp,
 		"RecursivePointerShapedStruct":    c01R{M: map[string]c01R{"a": {M: map[string]c01R{"b": {}}}}},
 		"RecursiveStructByValueField":     c01Out{F0: &c01In{F0: TgMutA{A: 1, B: &TgMutB{S: "x", A: []TgMutA{{A: 2}}}}}},
+		"EmbeddedPtrFirstFieldDoublePtr": struct {
+			*TgEmbOmitP
+			X int
+		}{&TgEmbOmitP{PP: ppi, V: true}, 0},
 	}
 }
 
